@@ -121,8 +121,12 @@ namespace detail
 			return 0u;
 		else if(glm::isnan(x))
 			return ~0u;
+		else if(x < 3.0517578125e-05f) // negative or below 2^-15, the smallest exponent of the format: clamp to zero
+			return 0u;
 		else if(glm::isinf(x))
 			return 0x1Fu << 6u;
+		else if(x >= 65536.0f) // above the largest finite value: clamp to it
+			return (0x1Eu << 6u) | 0x3Fu;
 
 		uint Pack = 0u;
 		memcpy(&Pack, &x, sizeof(Pack));
@@ -149,8 +153,12 @@ namespace detail
 			return 0u;
 		else if(glm::isnan(x))
 			return ~0u;
+		else if(x < 3.0517578125e-05f) // negative or below 2^-15, the smallest exponent of the format: clamp to zero
+			return 0u;
 		else if(glm::isinf(x))
 			return 0x1Fu << 5u;
+		else if(x >= 65536.0f) // above the largest finite value: clamp to it
+			return (0x1Eu << 5u) | 0x1Fu;
 
 		uint Pack = 0;
 		memcpy(&Pack, &x, sizeof(Pack));
